@@ -139,6 +139,7 @@ class SessionManager:
         self._reorg_count = 0
         self._notified_reorg_count = 0
         self._history_cache = pylru.lrucache(1000)
+        self._history_invalidations = 0
         self._history_lookups = 0
         self._history_hits = 0
         self._tx_hashes_cache = pylru.lrucache(1000)
@@ -829,11 +830,14 @@ class SessionManager:
             result = self._history_cache[hashX]
             self._history_hits += 1
         except KeyError:
+            invalidations = self._history_invalidations
             result = await self.db.limited_history(hashX, limit=limit)
             cost += 0.1 + len(result) * 0.001
             if len(result) >= limit:
                 result = RPCError(BAD_REQUEST, 'history too large', cost=cost)
-            self._history_cache[hashX] = result
+            # Don't cache a history read across a cache invalidation: it may predate the block
+            if invalidations == self._history_invalidations:
+                self._history_cache[hashX] = result
 
         if isinstance(result, Exception):
             raise result
@@ -849,6 +853,7 @@ class SessionManager:
             self._notified_reorg_count = self._reorg_count
             await self._refresh_hsub_results(height)
             # Invalidate our history cache for touched hashXs
+            self._history_invalidations += 1
             cache = self._history_cache
             for hashX in set(cache).intersection(touched):
                 del cache[hashX]
